@@ -49,7 +49,8 @@ CCheck(m, e) ==
 
 CUpd(m, e) ==
   CASE e.a = "wb" -> [m EXCEPT !.infl = e.v, !.over = IF m.rd THEN @ \cup {e.v} ELSE @]
-    [] e.a = "we" -> [m EXCEPT !.infl = 0, !.done = Append(@, e.v)]
+    \* (a read that overlapped this write may already have returned it before the write was seen to return)
+    [] e.a = "we" -> [m EXCEPT !.infl = 0, !.done = IF e.v <= m.consumed THEN @ ELSE Append(@, e.v)]
     [] e.a = "rb" -> [m EXCEPT !.rd = TRUE,
                                !.atBegin = IF m.done = <<>> THEN 0 ELSE m.done[Len(m.done)],
                                !.over = IF m.infl # 0 THEN {m.infl} ELSE {}]
